@@ -221,12 +221,12 @@ def step (s : St) (ws : List String) : St × List String :=
     | some i, some bi, some bs =>
       if bi < w.brefs.length then
         let tok := w.brefs.getD bi none
-        -- an own, still-pending placeholder with a source of the wrong size: the harness catches
-        -- this documented panic and keeps going; `backfill_or_panic` checks the size first, so
-        -- nothing has changed
-        let wrongSize : Bool := match tok, w.iov i with
-          | some (key, info), some v => info.len ≠ bs.length && v.backrefs.any (fun e => e == (key, info))
-          | _, _ => false
+        -- a source of the wrong size (for ANY token: own, foreign, stale or empty): the harness
+        -- catches this documented panic and keeps going; `backfill_or_panic` compares the sizes
+        -- before it looks anything up, so nothing has changed
+        let wrongSize : Bool := match tok with
+          | some (_, info) => info.len ≠ bs.length
+          | none => !bs.isEmpty
         if wrongSize then ok s w ["R panicked"] (touched := some i)
         else
         match w.backfill i tok bs with
